@@ -1,7 +1,7 @@
 SPECIFICATION Spec
 CONSTANTS
   NF = 2
-  MaxLen = 10
+  MaxLen = 9
   Kinds = {"mod", "add", "addempty", "del", "rename", "renmod", "copy", "modeonly", "modemod", "bin", "binadd"}
   MaxHunks = 2
   MaxBody = 3
